@@ -276,16 +276,31 @@ class ReactionQueryReader(object):
                                   + tree[0] + "'")
         return atom_name, idx, reactant_name, idx_in_query, atom
 
+    def PatternRadicals(self, reactionquery, reactant_name, idx_in_query):
+        # Radical electrons the reactant pattern declares for this atom.  The
+        # query atom itself never carries them: a '.' or ':' suffix is stored
+        # as an AtomRadical constraint of the MolQuery.
+        from .. RDkitWrapper.MolQuery import AtomRadical
+        constraints = reactionquery.reactantquery[reactant_name].\
+            atom_constraints.get(idx_in_query, [])
+        for constraint in constraints:
+            if (isinstance(constraint, AtomRadical) and not constraint.negate
+                    and constraint.CN.operator == '='):
+                return constraint.CN.n
+        return 0
+
     def ReadAtomTypeModify(self, tree, reactionquery):
         assert tree[0][0] == 'AtomLabel'
-        _, idx, _, _, atom = self.ReadAtomLabel(tree[0][1:], reactionquery)
+        _, idx, reactant_name, idx_in_query, atom = \
+            self.ReadAtomLabel(tree[0][1:], reactionquery)
         assert tree[1][0] == 'AtomType'
         symbol, radical, charge, valence = self.ReadAtomType(tree[1][1:])
         if atom.GetSymbol() != symbol:
             raise NotImplementedError("AtomTypeModify: Atom Label change",
                                       "not supported")
 
-        self.electronbalance[idx] -= radical - atom.GetNumRadicalElectrons()
+        self.electronbalance[idx] -= radical - self.PatternRadicals(
+            reactionquery, reactant_name, idx_in_query)
         self.electronbalance[idx] += charge - atom.GetFormalCharge()
         reactionquery.transformations.append(AtomTypeModify(idx,
                                                             radical,
@@ -294,12 +309,14 @@ class ReactionQueryReader(object):
 
     def ReadRadicalModify(self, tree, reactionquery):
         assert tree[0][0] == 'AtomLabel'
-        _, idx, _, _, atom = self.ReadAtomLabel(tree[0][1:], reactionquery)
+        _, idx, reactant_name, idx_in_query, atom = \
+            self.ReadAtomLabel(tree[0][1:], reactionquery)
         radical = tree[1]
         if radical < 0:
             raise RINGReaderError("RadicalModify: Number of radical",
                                   "electrons cannot be below 0")
-        self.electronbalance[idx] -= radical - atom.GetNumRadicalElectrons()
+        self.electronbalance[idx] -= radical - self.PatternRadicals(
+            reactionquery, reactant_name, idx_in_query)
         reactionquery.transformations.append(AtomTypeModify(idx,
                                                             radical,
                                                             0, 0))
